@@ -44,13 +44,14 @@ Opt(x) == IF x = <<>> THEN <<>> ELSE x
 LinkSlot(p, tg) == IF tg = <<"-">> THEN <<>> ELSE (p :> LinkNode(tg))
 
 \* ---- safety universe: link shapes x special files x odd modes ----
-TL == { <<"..","ext">>, <<"..","ext","x">>, <<"..","srcx">>, <<"..","srcx","f">>, <<"s">>, <<"f">>, <<"nowhere">>,
+TL == { <<"..","ext">>, <<"..","ext","s">>, <<"..","ext","x">>, <<"..","srcx">>, <<"..","srcx","f">>, <<"s">>, <<"f">>, <<"nowhere">>,
         <<"..","fifo">>, <<"..","la">>, <<"","A","src","f">>, <<"","A","ef">>, <<"..","..","A","ext">>, <<"s","..","..","ef">>, <<"..","ef">> }
 TK == { <<"..","ext2">>, <<".">>, <<"..","src","f">>, <<"x">>, <<"..","ef">> }
-TM == { <<"..","f">>, <<"..","..","ext">>, <<"..","..","srcx","f">>, <<"..">>, <<"g">> }
-TLq == { <<"..","ext">>, <<"..","ext","x">>, <<"..","srcx","f">>, <<"s">>, <<"nowhere">>, <<"..","fifo">>, <<"..","la">>, <<"","A","src","f">>, <<"","A","ef">> }
+TK2 == { <<"..","..","src","f">>, <<"y">> }      \* a link at ext/s/k: one level deeper than where it lands in the archive
+TM == { <<"..","f">>, <<"..","..","src","f">>, <<"..","..","ext">>, <<"..","..","srcx","f">>, <<"..">>, <<"g">> }
+TLq == { <<"..","ext">>, <<"..","ext","s">>, <<"..","ext","x">>, <<"..","srcx","f">>, <<"s">>, <<"nowhere">>, <<"..","fifo">>, <<"..","la">>, <<"","A","src","f">>, <<"","A","ef">> }
 TKq == { <<"..","ext2">>, <<".">>, <<"x">> }
-TMq == { <<"..","f">>, <<"..","..","ext">>, <<"..">> }
+TMq == { <<"..","f">>, <<"..","..","src","f">>, <<"..","..","ext">>, <<"..">> }
 
 TreeCore(tf, md, zm) ==
   (<<"A","src","f">> :> FileNode(644, tf, 1)) @@ (<<"A","src","s">> :> DirNode(md, 3))
@@ -58,6 +59,8 @@ TreeCore(tf, md, zm) ==
   @@ (<<"A","src","z">> :> FileNode(zm, 2, 0)) @@ (<<"A","src","p">> :> FifoNode(644, 2))
 
 SafetyTrees(tl, tk, tm) ==
+  { LinkSlot(<<"A","src","l">>, <<"..","ext","s">>) @@ LinkSlot(<<"A","ext","s","k">>, k2) @@ TreeCore(2, 755, 644) @@ ArenaBase : k2 \in TK2 }
+  \cup
   { LinkSlot(<<"A","src","l">>, l) @@ LinkSlot(<<"A","ext","k">>, k) @@ LinkSlot(<<"A","src","s","m">>, m)
     @@ TreeCore(tf, md, zm) @@ ArenaBase
     : l \in tl \cup {<<"-">>}, k \in tk \cup {<<"-">>}, m \in tm \cup {<<"-">>},
